@@ -270,9 +270,9 @@ def finish(prop, tier, seed, jobs, outs, t0, level_rule, nontrivial, extra=None,
         json.dump(ev, f, indent=1, default=str)
     if not PARTIAL:
         # one-line-per-tier history (the main file only holds the most recent run)
-        os.makedirs(os.path.join(EVID_DIR, 'tiers'), exist_ok=True)
+        os.makedirs(os.path.join(_OUT, 'sweep', 'tiers'), exist_ok=True)
         brief = dict(ev, coverage={k: v for k, v in cov.items() if k not in ('scenarios', 'samples')})
-        with open(os.path.join(EVID_DIR, 'tiers', f'{prop}.{tier}.json'), 'w') as f:
+        with open(os.path.join(_OUT, 'sweep', 'tiers', f'{prop}.{tier}.json'), 'w') as f:
             json.dump(brief, f, indent=1, default=str)
     for ln in lines:
         print(ln, file=out)
